@@ -229,7 +229,16 @@ def run_case(c):
         scale = {'one': 1, 'scale': float(rng.uniform(0.3, 2.0)) * (-1 if rng.random() < 0.3 else 1),
                  'complex_scale': complex(rng.normal(), rng.normal())}[var]
         dtype = float if (var != 'complex_scale' and rng.random() < 0.5) else complex
+        # every combination of the two options is admissible: a scale that does not fit the requested dtype promotes the tensors
+        combo = int(rng.integers(6))
+        if combo == 0:
+            dtype = float                                   # complex or real scale, float dtype
+        elif combo == 1:
+            dtype = int                                     # (possibly fractional or complex) scale, integer dtype
+        elif combo == 2 and var != 'complex_scale':
+            dtype = int; scale = int(rng.integers(-3, 4)) or 2
         if var == 'one' and rng.random() < 0.5:
+            scale = 1
             good, r = k.call('MPO.identity', ptn.MPO.identity, k.qd, L)
         else:
             good, r = k.call('MPO.identity', ptn.MPO.identity, k.qd, L, scale=scale, dtype=dtype)
